@@ -123,9 +123,15 @@ var structural = []byte("<>[]()/% \n0R-")
 // substitution at every offset that holds a structural byte); larger ones at
 // token and sector boundaries.
 func EnumBytes(img []byte, exhaustiveLimit int) []Fault {
+	return EnumBytesLimits(img, exhaustiveLimit, exhaustiveLimit)
+}
+
+// EnumBytesLimits: truncation at every offset for images up to truncLimit bytes,
+// structural-character substitution at every structural byte up to setLimit.
+func EnumBytesLimits(img []byte, truncLimit, exhaustiveLimit int) []Fault {
 	var out []Fault
 	n := len(img)
-	if n <= exhaustiveLimit {
+	if n <= truncLimit {
 		for k := 0; k < n; k++ {
 			out = append(out, Fault{Layer: "bytes", Kind: "truncate", A: int64(k)})
 		}
